@@ -604,6 +604,22 @@ func deriveTripCount(loop *Loop) {
 		return
 	}
 
+	// The closed forms below are exact over the integers.  A variable of a narrow fixed-width
+	// type can wrap around within a handful of iterations; then they are wrong (uint8: for
+	// i := a; i <= n; i += 3 with a=250, n=254 runs 87 times, not 2).  For such a variable a
+	// count is only derived where no wrap can precede the exit: an ordered comparison with a
+	// unit step (i < n <= MAX implies i+1 <= MAX).  64-bit counters are treated as unbounded.
+	if isNarrowInteger(iv.Phi.Type()) {
+		unit := false
+		if stepC := iv.Step.EvaluateAt(nil, nil); stepC != nil {
+			unit = stepC.CmpAbs(big.NewInt(1)) == 0
+		}
+		if isNEQ || !unit {
+			loop.TripCount = &SCEVUnknown{Value: nil}
+			return
+		}
+	}
+
 	// The closed forms below are only valid when the variable moves TOWARDS the limit:
 	// an up-counting test needs a positive step, a down-counting test a negative one.
 	// With the step's sign unknown (or wrong) the loop either never runs or never ends.
@@ -712,6 +728,19 @@ func deriveTripCount(loop *Loop) {
 		quotient := &SCEVGenericExpr{Op: token.QUO, X: numer, Y: absStep}
 		loop.TripCount = &SCEVMax{X: zero, Y: quotient}
 	}
+}
+
+// isNarrowInteger reports whether t is an integer type of fewer than 64 bits.
+func isNarrowInteger(t types.Type) bool {
+	b, ok := t.Underlying().(*types.Basic)
+	if !ok {
+		return false
+	}
+	switch b.Kind() {
+	case types.Int8, types.Int16, types.Int32, types.Uint8, types.Uint16, types.Uint32:
+		return true
+	}
+	return false
 }
 
 func ToSCEV(v ssa.Value, loop *Loop) SCEV {
